@@ -94,8 +94,35 @@ def map_cases(draw, two=False):
         "route": draw(st.sampled_from(["center", "origin"])),
     }
     if two:
-        case["grid2"] = draw(gen.grids(D, min_size=2 if need2 else 1))
+        case["grid2"] = draw(second_grid(g, D, 2 if need2 else 1))
     return case
+
+
+@st.composite
+def second_grid(draw, g, D, min_size):
+    """Second grid: independent, or related to the first (same domain / other size, only align_corners
+    flipped, equal copy, translated copy) - relations under which a shortcut such as 'same grid' or
+    'same domain' could wrongly be taken."""
+    rel = draw(st.sampled_from(["independent", "independent", "resized_extent", "resized_corners", "acflip", "equal", "translated"]))
+    if rel == "independent":
+        g2 = draw(gen.grids(D, min_size=min_size))
+    else:
+        g2 = {k: (list(v) if isinstance(v, list) else v) for k, v in g.items()}
+        if rel in ("resized_extent", "resized_corners"):
+            n2 = draw(st.lists(st.integers(max(2, min_size), 64), min_size=D, max_size=D))
+            n1 = g["size"]
+            if rel == "resized_extent":
+                g2["spacing"] = [float(s * a / b) for s, a, b in zip(g["spacing"], n1, n2)]
+            else:
+                g2["spacing"] = [float(s * max(a - 1, 1) / max(b - 1, 1)) for s, a, b in zip(g["spacing"], n1, n2)]
+            g2["size"] = n2
+        elif rel == "acflip":
+            g2["ac"] = not g["ac"]
+        elif rel == "translated":
+            off = draw(st.lists(gen.qfloat(-5.0, 5.0, 0.01), min_size=D, max_size=D))
+            g2["center"] = [float(c + o) for c, o in zip(g["center"], off)]
+    g2["rel"] = rel
+    return g2
 
 
 def _bound(m_to: ref.GridModel, m_from: ref.GridModel, a: str, b: str, p: np.ndarray, dtype, decimals: str) -> float:
@@ -204,7 +231,8 @@ def run_ref_model(case):
             check_close(grid.cube_to_world(p, decimals=None), exp_shaped, bound, "helper_default_align_corners", "cube_to_world()")
     return {"ratio": r, "nontrivial": nontrivial_grid(case) and (grid2 is None or gen.grid_is_oblique(case["grid2"])),
             "labels": [f"{a}->{b}", f"api={case['api']}", f"dec={case['decimals']}", g["kind"], f"ac={g['ac']}", case["dtype"],
-                       f"form={case['form']}", f"D={case['D']}", f"route={case['route']}"]}
+                       f"form={case['form']}", f"D={case['D']}", f"route={case['route']}"]
+            + ([f"rel={case['grid2'].get('rel')}"] if "grid2" in case else [])}
 
 
 # ---------------------------------------------------------------------------------------
@@ -219,8 +247,8 @@ def law_cases(draw):
             "rel": draw(rel_points(D)), "dtype": draw(gen.dtypes()), "decimals": draw(st.sampled_from(["default", "none"])),
             "two": draw(st.booleans())}
     if case["two"]:
-        case["grid2"] = draw(gen.grids(D, min_size=2))
-        case["grid3"] = draw(gen.grids(D, min_size=2))
+        case["grid2"] = draw(second_grid(g, D, 2))
+        case["grid3"] = draw(second_grid(g, D, 2))
     return case
 
 
@@ -274,7 +302,7 @@ def vector_cases(draw):
     n = len(case["rel"])
     case["vec"] = draw(st.lists(st.lists(gen.qfloat(-2.0, 2.0, 0.001), min_size=D, max_size=D), min_size=n, max_size=n))
     if case["two"]:
-        case["grid2"] = draw(gen.grids(D, min_size=2))
+        case["grid2"] = draw(second_grid(g, D, 2))
     return case
 
 
